@@ -6,7 +6,9 @@
 //! - [`set_st_picker`] lets a harness choose which queued task the
 //!   single-threaded executor runs next (thread-local, deterministic),
 //! - [`set_delay_hook`] lets a harness inject delays at the protocol points of
-//!   the multi-threaded executor.
+//!   the multi-threaded executor and of the simulation time updates (`T1`:
+//!   before the final time jump of `step_until`, `T2`: between the two field
+//!   stores of a time write, `Q1`: after a time read through a scheduler).
 //!
 //! Not for production use!
 
@@ -88,5 +90,8 @@ pub mod site {
     pub const P1: u32 = 15;
     pub const P2: u32 = 16;
     pub const E1: u32 = 17;
-    pub const COUNT: u32 = 18;
+    pub const T1: u32 = 18;
+    pub const T2: u32 = 19;
+    pub const Q1: u32 = 20;
+    pub const COUNT: u32 = 21;
 }
